@@ -50,6 +50,10 @@ var (
 	parkAt     int64 // 0 = disarmed
 	parkedCh   = make(chan int64, 1)
 	resumeCh   = make(chan struct{})
+	tokenCh    = make(chan *ParkToken, 4)
+	useTokens  int32
+	spinArmed  int32
+	spinCh     = make(chan struct{}, 1)
 	budgetFrom int64 // reader budget: steps counted from here
 	budgetMax  int64 // 0 = off
 )
@@ -68,6 +72,50 @@ func Parked() <-chan int64 { return parkedCh }
 
 // Resume releases the parked goroutine.
 func Resume() { resumeCh <- struct{}{} }
+
+// ParkToken identifies one parked goroutine when several may be parked at once
+// (token mode, used for two-goroutine schedule enumeration).
+type ParkToken struct {
+	Step   int64
+	Kind   Kind // the kind of shim point the goroutine is parked at
+	resume chan struct{}
+}
+
+// Spinning reports whether the goroutine was parked inside a wait loop (lock
+// spin, condition spin, Gosched of a spin lock), i.e. while already waiting.
+func (t *ParkToken) Spinning() bool {
+	return t.Kind == KLockSpin || t.Kind == KCondSpin || t.Kind == KGosched
+}
+
+// Resume releases exactly this goroutine.
+func (t *ParkToken) Resume() { t.resume <- struct{}{} }
+
+// SetTokenMode: parks are announced on ParkedTokens() with their own resume channel.
+func SetTokenMode(on bool) {
+	if on {
+		atomic.StoreInt32(&useTokens, 1)
+	} else {
+		atomic.StoreInt32(&useTokens, 0)
+	}
+}
+
+// ParkedTokens delivers a token for every park in token mode.
+func ParkedTokens() <-chan *ParkToken { return tokenCh }
+
+// ArmSpinNotify: the next goroutine that spins more than 2000 times in one
+// polling lock / condition wait announces it once on SpinNotified(), i.e. "I am
+// blocked on something another goroutine holds".
+func ArmSpinNotify() {
+	select {
+	case <-spinCh:
+	default:
+	}
+	atomic.StoreInt32(&spinArmed, 1)
+}
+
+func DisarmSpinNotify() { atomic.StoreInt32(&spinArmed, 0) }
+
+func SpinNotified() <-chan struct{} { return spinCh }
 
 // SetStepBudget: from now on, if more than max global steps are executed the
 // goroutine executing the offending step is reported through OnStuck.
@@ -195,11 +243,31 @@ func condWaited()    { atomic.AddUint64(&condWaits, 1) }
 func ledger(d int64) { atomic.AddInt64(&lockBal, d) }
 func polling() bool  { return atomic.LoadInt32(&mode)&MPoll != 0 }
 
+var goscheds uint64
+
+// spinTick: the library's own spin loops (bucket spin lock) yield through Gosched
+func spinTick() {
+	n := atomic.AddUint64(&goscheds, 1)
+	if n&2047 == 0 && atomic.LoadInt32(&spinArmed) != 0 && atomic.CompareAndSwapInt32(&spinArmed, 1, 0) {
+		select {
+		case spinCh <- struct{}{}:
+		default:
+		}
+	}
+}
+
 func waitSpin(k Kind) {
+	var n uint64
 	if k == KLockSpin {
-		atomic.AddUint64(&lockSpins, 1)
+		n = atomic.AddUint64(&lockSpins, 1)
 	} else {
-		atomic.AddUint64(&condSpins, 1)
+		n = atomic.AddUint64(&condSpins, 1)
+	}
+	if n&2047 == 0 && atomic.LoadInt32(&spinArmed) != 0 && atomic.CompareAndSwapInt32(&spinArmed, 1, 0) {
+		select {
+		case spinCh <- struct{}{}:
+		default:
+		}
 	}
 	point(k)
 	runtime.Gosched()
@@ -225,8 +293,14 @@ func point(k Kind) {
 		if p := atomic.LoadInt64(&parkAt); p != 0 && n == p {
 			atomic.StoreInt64(&parkAt, 0)
 			atomic.AddUint64(&parks, 1)
-			parkedCh <- n
-			<-resumeCh
+			if atomic.LoadInt32(&useTokens) != 0 {
+				t := &ParkToken{Step: n, Kind: k, resume: make(chan struct{})}
+				tokenCh <- t
+				<-t.resume
+			} else {
+				parkedCh <- n
+				<-resumeCh
+			}
 		}
 		if b := atomic.LoadInt64(&budgetMax); b != 0 && n-atomic.LoadInt64(&budgetFrom) > b {
 			stuck(fmt.Sprintf("step budget of %d exceeded at %s", b, KindNames[k]))
